@@ -268,13 +268,27 @@ def value_type_name(v):
     return type(v).__name__
 
 
+_CONV_CACHE = {}
+
+
 def convert(ex, e, target, env):
-    """From/Into conversion of value e to the (normalised) target type"""
+    """From/Into conversion of value e to the target type"""
+    src = value_type_name(e)
+    key = (target, src, None if not env else tuple(sorted(env.items())))
+    hit = _CONV_CACHE.get(key)
+    if hit is None:
+        hit = _convert_target(ex, src, target, env, isinstance(e, Adt))
+        _CONV_CACHE[key] = hit
+    if hit == 'id':
+        return e
+    return ex.call_fn(hit, [e], None)
+
+
+def _convert_target(ex, src, target, env, is_adt):
     tgt = norm_type(subst_env(target, env))
     th = parse_type(tgt)[0]
-    src = value_type_name(e)
-    if src == th or tgt.startswith('<') or th in ('Error',) and src == 'int' and False:
-        return e
+    if src == th or tgt.startswith('<'):
+        return 'id'
     if ex.impl_index is None:
         ex.build_impl_index()
     cands = []
@@ -287,31 +301,38 @@ def convert(ex, e, target, env):
         if pt == src or (pt == 'tuple' and src == '()'):
             cands.append(f)
     if len(cands) == 1:
-        return ex.call_fn(cands[0], [e], None)
+        return cands[0]
     if not cands:
-        # associated / opaque error types (e.g. <A as Adapter>::Error) and identical types: identity
-        if not isinstance(e, Adt) or th in ('Error',) and src not in ('ParseError', 'Utf8Error', 'ParseIntError', 'fmt::Error'):
-            if src == th or not isinstance(e, Adt):
-                return e
+        # associated / opaque error types (e.g. <A as Adapter>::Error) carried as plain values: identity
+        if not is_adt:
+            return 'id'
         raise Unsupported(f'no From<{src}> for {tgt}')
     raise Unsupported(f'ambiguous From<{src}> for {tgt}')
 
 
+_RESIDUAL_CACHE = {}
+
+
 @native(r'as FromResidual<.*>>::from_residual$', 'FromResidual::from_residual')
 def n_from_residual(ex, callee, a, env):
-    m = re.match(r'^<(.*) as (?:[\w:]+::)?FromResidual<', callee)
-    self_ty = m.group(1)
     r = a[0]
     if r.ty == 'Option':
         return NONE()
-    pt = parse_type(norm_type(subst_env(self_ty, env)))
-    if pt[0] == 'Result':
-        return Err(convert(ex, r.f[0], type_str(pt[1][1]), env))
-    if pt[0] == 'Poll':
-        inner = pt[1][0]
-        if inner[0] == 'Result':
-            return Ready(Err(convert(ex, r.f[0], type_str(inner[1][1]), env)))
-    raise Unsupported('from_residual into ' + self_ty)
+    key = (callee, None if not env else tuple(sorted(env.items())))
+    info = _RESIDUAL_CACHE.get(key)
+    if info is None:
+        m = re.match(r'^<(.*) as (?:[\w:]+::)?FromResidual<', callee)
+        pt = parse_type(norm_type(subst_env(m.group(1), env)))
+        if pt[0] == 'Result':
+            info = ('result', type_str(pt[1][1]))
+        elif pt[0] == 'Poll' and pt[1][0][0] == 'Result':
+            info = ('poll', type_str(pt[1][0][1][1]))
+        else:
+            raise Unsupported('from_residual into ' + m.group(1))
+        _RESIDUAL_CACHE[key] = info
+    if info[0] == 'result':
+        return Err(convert(ex, r.f[0], info[1], env))
+    return Ready(Err(convert(ex, r.f[0], info[1], env)))
 
 
 @native(r'^<.* as Into<.*>>::into$', 'Into::into')
@@ -480,10 +501,22 @@ def n_clone(ex, callee, a, env):
 
 
 # ----------------------------------------------------------------------------- bytes / chars
+_MEMO = {}      # (op, ast id, ...) -> (expr kept alive, result)
+
+
 def in_range(b, lo, hi):
     if isinstance(b, int):
         return lo <= b <= hi
-    return z3.And(z3.UGE(b, lo), z3.ULE(b, hi))
+    key = ('r', b.get_id(), lo, hi)
+    r = _MEMO.get(key)
+    if r is None:
+        w = b.size()
+        if lo == 0:
+            e = z3.ULE(b, bvval(hi, w))
+        else:
+            e = z3.And(z3.UGE(b, bvval(lo, w)), z3.ULE(b, bvval(hi, w)))
+        r = _MEMO[key] = (b, e)
+    return r[1]
 
 
 def Or(*xs):
@@ -511,10 +544,19 @@ def Not(x):
 
 
 def _eq(p, q):
-    if isinstance(p, int) and isinstance(q, int):
+    pi, qi = isinstance(p, int), isinstance(q, int)
+    if pi and qi:
         return p == q
     if isinstance(p, Token) or isinstance(q, Token):
         raise Unsupported('comparison with a text token')
+    if qi or pi:
+        if pi:
+            p, q = q, p
+        key = ('e', p.get_id(), q)
+        r = _MEMO.get(key)
+        if r is None:
+            r = _MEMO[key] = (p, p == bvval(q, p.size()))
+        return r[1]
     return p == q
 
 
@@ -596,7 +638,11 @@ def n_is_ascii(ex, callee, a, env):
 def lower(b):
     if isinstance(b, int):
         return b | 0x20 if 65 <= b <= 90 else b
-    return z3.If(z3.And(z3.UGE(b, 65), z3.ULE(b, 90)), b | 0x20, b)
+    key = ('l', b.get_id())
+    r = _MEMO.get(key)
+    if r is None:
+        r = _MEMO[key] = (b, z3.If(in_range(b, 65, 90), b | bvval(0x20, b.size()), b))
+    return r[1]
 
 
 def upper(b):
